@@ -186,6 +186,7 @@ func TestC13(t *testing.T) {
 		cfg := DrawConfig(rt, c13Profile)
 		it := NewInterp(cfg, []Policy{{}}, Options{DeepEvery: 0})
 		g := &Gen{P: c13Profile, It: it}
+		g.DrawHot(rt)
 		n := rapid.IntRange(c13Profile.MinOps, c13Profile.MaxOps).Draw(rt, "nops")
 		var ops []Op
 		apply := func(op *Op) {
